@@ -36,19 +36,25 @@
    ([C02_ring_to_ring]): nothing duplicated, merged, reordered or invented, for every cut of the
    stream.  A genuine decoding error (not MissingBuffer) ends the reader history.
 
-   Liveness is proved for a reader that leaves scratch space in front of the unread bytes
-   before each call (what mpt_queue_recv's recovery path and mpt_stream_dispatch's enlargement
-   establish): [C02_stream_delivers_all] -- once the bytes the writer ring produced for complete
-   messages are in the decoder's buffer, as many such calls as messages were sent deliver ALL of
-   them, in order, and leave nothing unread.  For the ring-level reader [rh_run] itself liveness
-   is not a theorem (hence "partial" overall); there it is decided against the specification
-   [sspec_run] -- received = sent, in order, nothing lost, duplicated or merged, and everything
-   arrives after a drain -- by the correspondence run on rings of many capacities and offsets
-   with arbitrary cuts of the wire. *)
+   LIVENESS is proved at both levels.  Ring level, the real mechanism: [C02_ring_round_delivers]
+   -- whenever the unread bytes of the input ring complete (or start) a frame the reference decoder
+   accepts, mpt_queue_recv either delivers the message or reports MissingBuffer in a state from
+   which, after ONE enlargement of the ring by (bytes up to the delimiter + 17) with
+   mpt_queue_prepare, the next mpt_queue_recv delivers it: the decoder never asks for more input
+   on complete data and never reports a decoding error on it, and the recovery path of
+   mpt_queue_recv turns all free space into scratch space.  Iterated: [C02_ring_reader_delivers_all]
+   (from ANY reachable reader state between messages whose unread bytes are the frames of ms,
+   |ms| such rounds deliver exactly ms and empty the ring) and, composed with the writer,
+   [C02_ring_to_ring_all].  Call level: [C02_stream_delivers_all] for a reader that makes room
+   before each call.
+
+   What remains outside the theorems (hence "partial" overall): the transport between the rings
+   (mptio stream glue, kernel sockets) is executed and compared with the specification
+   [sspec_run] only; the reader theorems take the bytes as already wired into the ring. *)
 From MptV Require Import Base.Mem Cobs.CobsModel Cobs.DecModel Cobs.EncProofs Cobs.EncTheorems
   Cobs.DecProofs Cobs.DecComplete Cobs.StreamSpec Cobs.StreamProofs
   C13.QueueModel Cobs.QueueCodec Cobs.QueuePushProofs Cobs.QueuePushTheorem Cobs.WriterHistory
-  Cobs.DecCall Cobs.DecHistory Cobs.ReaderHistory Cobs.EndToEnd.
+  Cobs.DecCall Cobs.DecHistory Cobs.ReaderHistory Cobs.DecLive Cobs.ReaderLive Cobs.EndToEnd.
 
 Theorem C02_wire_splits_into_frames :
   forall v ms wire, frames_of v ms wire ->
@@ -151,6 +157,45 @@ Proof.
   split; [reflexivity|]. split; [|reflexivity]. apply cinv_init. cbn [length]. lia.
 Qed.
 
+Theorem C02_ring_round_delivers :
+  forall v s pre tl n fill,
+    rh_inv v s -> rh_stop s = false -> rh_live v s -> rh_unread s = pre ++ 0%N :: tl -> nozero pre = true ->
+    length pre + 17 <= n ->
+    let s' := rh_round v n fill s in
+    rh_inv v s' /\ rh_stop s' = false /\ rh_in s' = rh_in s /\
+    length (rh_msgs s') = S (length (rh_msgs s)) /\ dcode (dq_st (rh_d s')) = 0 /\ rh_unread s' = tl.
+Proof. exact ring_round_delivers. Qed.
+
+Theorem C02_ring_reader_delivers_all :
+  forall v ms C s n fill, frames_of v ms C ->
+    rh_inv v s -> rh_stop s = false -> dcode (dq_st (rh_d s)) = 0 -> rh_unread s = C -> length C + 17 <= n ->
+    let s' := rh_rounds v n fill (length ms) s in
+    rh_stop s' = false /\ rh_msgs s' = rh_msgs s ++ ms /\ rh_unread s' = [] /\ rh_in s' = rh_in s.
+Proof. exact ring_reader_delivers_all. Qed.
+
+Theorem C02_ring_to_ring_all :
+  forall v wbuf woff wops ws, variant_ok v -> woff < length wbuf ->
+    wh_run v (wh_init wbuf woff) wops = Some ws -> wh_cur ws = [] -> escr (eq_st (wh_e ws)) = 0 ->
+    forall s n fill, rh_inv v s -> rh_stop s = false -> dcode (dq_st (rh_d s)) = 0 ->
+      rh_unread s = wh_sent ws ++ contents (eq_q (wh_e ws)) ->
+      length (wh_sent ws ++ contents (eq_q (wh_e ws))) + 17 <= n ->
+      let s' := rh_rounds v n fill (length (wh_done ws)) s in
+      rh_stop s' = false /\ rh_msgs s' = rh_msgs s ++ wh_done ws /\ rh_unread s' = [].
+Proof. exact ring_to_ring_all. Qed.
+
+(* non-vacuity: a 14-byte ring at offset 3, completely filled with three ZPE frames (no free space:
+   the first receive runs out of scratch space and cannot recover); three rounds deliver all
+   three messages, the ring was enlarged once *)
+Example C02_ring_rounds_example :
+  let s0 := rh_run v_zpe (rh_init (repeat 238%N 14) 3) [RWire [225;65;225;66;225;67;1;0; 3;1;2;0; 1;0]%N] in
+  let s' := rh_rounds v_zpe 31 238%N 3 s0 in
+  rh_inv v_zpe s0 /\ rh_stop s0 = false /\ dcode (dq_st (rh_d s0)) = 0 /\ rh_free s0 = 0 /\
+  rh_msgs (rh_step v_zpe s0 RRecv) = [] /\
+  rh_stop s' = false /\ rh_msgs s' = [[65;0;0;66;0;0;67;0;0]; [1;2]; []]%N /\ rh_unread s' = [].
+Proof.
+  split; [apply rh_run_inv, rh_init_inv; cbn [length repeat]; lia|]. vm_compute. repeat split; reflexivity.
+Qed.
+
 (* non-vacuity: an 8-byte reader ring starting at offset 5 (data wraps, consumed prefixes are
    shifted out), three frames arriving in three pieces; the history does not stop *)
 Example C02_ring_reader_example :
@@ -210,3 +255,6 @@ Print Assumptions C02_stream_end_to_end.
 Print Assumptions C02_ring_reader_delivers.
 Print Assumptions C02_ring_to_ring.
 Print Assumptions C02_stream_delivers_all.
+Print Assumptions C02_ring_round_delivers.
+Print Assumptions C02_ring_reader_delivers_all.
+Print Assumptions C02_ring_to_ring_all.
